@@ -150,11 +150,11 @@ def handleDisk (blob : String → List Nat) (args : List String) : String × Lis
   | "disk.create" :: fl :: v :: archive :: outp :: n :: rest =>
       let srcs := (rest.take n.toNat!).map uncp
       let w := (worldOf' (rest.drop n.toNat!))
-      showDiskOutcome (Disk.create (flavourOf fl) (lookupWorld w) (v == "v") (uncp archive) srcs) outp
+      showDiskOutcome (Disk.createCmd (flavourOf fl) (lookupWorld w) (v == "v") (uncp archive) srcs) outp
   | "disk.add" :: fl :: v :: archive :: pre :: outp :: n :: rest =>
       let srcs := (rest.take n.toNat!).map uncp
       let w := (worldOf' (rest.drop n.toNat!))
-      showDiskOutcome (Disk.add (flavourOf fl) (lookupWorld w) (v == "v") (uncp archive) (blob pre) srcs) outp
+      showDiskOutcome (Disk.addCmd (flavourOf fl) (lookupWorld w) (v == "v") (uncp archive) (blob pre) srcs) outp
   | ["disk.list", fl, v, pre] => showDiskOutcome (Disk.list (flavourOf fl) (v == "v") (blob pre)) "/dev/null"
   | ["disk.extract", fl, v, archive, into, pre, outp] =>
       showDiskOutcome (Disk.extract (flavourOf fl) (v == "v") (uncp archive) (if into == "~" then none else some (uncp into)) (blob pre)) outp
